@@ -1727,8 +1727,16 @@ func (s sortedErrors) Less(i, j int) bool {
 	// We expect the error strings to be composed of error messages,
 	// line numbers, etc. delimited by ":".
 	const errorSplitCount = 4
-	fi := strings.SplitN(s[i].s, ":", errorSplitCount)
-	fj := strings.SplitN(s[j].s, ":", errorSplitCount)
+	split := func(s string) []string {
+		// The errors of a text that was parsed without a file name start
+		// with "line L:C" (see Statement.Location): no file, then the line.
+		if strings.HasPrefix(s, "line ") {
+			s = ":" + strings.TrimPrefix(s, "line ")
+		}
+		return strings.SplitN(s, ":", errorSplitCount)
+	}
+	fi := split(s[i].s)
+	fj := split(s[j].s)
 	// First, order the errors by the file name.
 	if fi[0] < fj[0] {
 		return true
